@@ -28,7 +28,7 @@ func init() {
 
 func runC04(c *Ctx) {
 	p := c.Progs["mod"]
-	c.Rule("C04.Y", "compatibility with the party that is not changed with this code: the agent starts only the three exchanges every proxy build tells apart", 3)
+	c.Rule("C04.Y", "compatibility with the party that is not changed with this code: the agent starts only the three exchanges every proxy build tells apart", 2)
 	ruleAgentProxyExchanges(c, p, "C04.Y")
 	c.Rule("C04.D", "dedup decision dominates the worker start; the window of seen IDs is never reset", 6)
 	c.Rule("C04.O", "the dedup LRU is owned by the polling goroutine", 1)
